@@ -72,6 +72,27 @@ def get(name):
     return E(("get", name, BAR))
 
 
+def U(n):
+    return E(cu(n))
+
+
+def AND(a, b):
+    a, b = E.of(a), E.of(b)
+    return E(mk_gamma(a, b, FALSE))
+
+
+def NOT(a):
+    return E(mk_not(E.of(a)))
+
+
+def SEL(arr, i):
+    return E(("select", E.of(arr), E.of(i)))
+
+
+def STORE(arr, i, v):
+    return E(("store", E.of(arr), E.of(i), E.of(v)))
+
+
 class Ctx:
     """binding of spec roles to struct fields + recording of component steps"""
 
@@ -228,6 +249,38 @@ def bb_next(r):
     return dict(out={"average": mean, "upper": mean + w, "lower": mean - w}, post={})
 
 
+def wrap(r):
+    return G((r.index + U(1)) < r.period, r.index + U(1), U(0))
+
+
+def roc_next(r):
+    x = E(X)
+    E_ = SEL(r.deque, r.index)
+    ref = G(r.period < r.count, E_, G((r.count + U(1)).eq(U(1)), x, SEL(r.deque, U(0))))
+    return dict(out=100.0 * (x - ref) / ref,
+                post={"deque": STORE(r.deque, r.index, x), "index": wrap(r), "count": G(r.period < r.count, r.count, r.count + U(1))})
+
+
+def mfi_next(r):
+    tp = TP
+    vol = get("volume")
+    idx = wrap(r)
+    warm = r.count < r.period
+    first = AND(warm, (r.count + U(1)).eq(U(1)))
+    popped = SEL(r.deque, idx)
+    pos = E(("sgnpos", popped.t))
+    P1 = G(warm, r.pos, G(pos, r.pos - popped, r.pos))
+    N1 = G(warm, r.neg, G(pos, r.neg, r.neg + popped))
+    flow = tp * vol
+    up, dn = tp > r.prev, tp < r.prev
+    P2 = G(up, P1 + flow, P1)
+    N2 = G(up, N1, G(dn, N1 + flow, N1))
+    slot = G(up, flow, G(dn, E(("neg", flow.t)), 0.0))
+    return dict(out=G(first, 50.0, 100.0 * P2 / (P2 + N2)),
+                post={"index": idx, "count": G(warm, r.count + U(1), r.count), "prev": tp,
+                      "pos": G(first, r.pos, P2), "neg": G(first, r.neg, N2), "deque": G(first, r.deque, STORE(r.deque, idx, slot))})
+
+
 SPECS = {
     "ExponentialMovingAverage": dict(
         prop="C02", roles={"k": ("PARAM", "f64"), "current": ("STATE", "f64"), "is_new": ("STATE", "bool")},
@@ -277,6 +330,17 @@ SPECS = {
         prop="C03", roles={"obv": ("STATE", "f64"), "prev": ("STATE", "f64")},
         init=lambda: {"obv": 0.0, "prev": 0.0},
         nexts={"&T": obv_next}, doc="running sum of +volume / -volume / 0 by the sign of the close change"),
+    "RateOfChange": dict(
+        prop="C03", ring=True,
+        roles={"period": ("PARAM", "usize"), "index": ("STATE", "usize"), "count": ("STATE", "usize"), "deque": ("BUFFER", "std::boxed::Box<[f64]>")},
+        init=lambda: {"period": P(0), "index": U(0), "count": U(0), "deque": E(("fromelem", cf(0.0), ("arg", "a0")))},
+        nexts={"f64": roc_next}, doc="100*(x - ref)/ref, ref = first price during warm-up, the slot about to be overwritten afterwards"),
+    "MoneyFlowIndex": dict(
+        prop="C03", ring=True,
+        roles={"period": ("PARAM", "usize"), "index": ("STATE", "usize"), "count": ("STATE", "usize"), "prev": ("STATE", "f64"),
+               "pos": ("STATE", "f64"), "neg": ("STATE", "f64"), "deque": ("BUFFER", "std::boxed::Box<[f64]>")},
+        init=lambda: {"period": P(0), "index": U(0), "count": U(0), "prev": 0.0, "pos": 0.0, "neg": 0.0, "deque": E(("fromelem", cf(0.0), ("arg", "a0")))},
+        nexts={"&T": mfi_next}, doc="100*PMF/(PMF+NMF): add tp*volume to the total matching the typical-price move, store it signed in the ring, subtract the popped signed flow from the matching total; first output 50"),
     "BollingerBands": dict(
         prop="C15", roles={"multiplier": ("PARAM", "f64"), "sd": ("NESTED", "StandardDeviation")},
         init=lambda: {"multiplier": P(1), "sd": ("ctor", "StandardDeviation", [P(0)])},
@@ -443,7 +507,7 @@ def check_binding(F, struct, spec, b, classes):
         for role, (cls, ty) in spec["roles"].items():
             f = b[role]
             key = "self." + f
-            if cls == "STATE":
+            if cls in ("STATE", "BUFFER"):
                 wt = E.of(want["post"].get(role, ("pre", key)))
                 got = heap.get(key, ("pre", key))
                 ok, cx = equal(got, wt, N)
